@@ -41,6 +41,7 @@ class NonThreadedExecutor:
         self.refstack = deque()
         self.errorstack = None
         self.rolledback = deque()
+        self.rolledback_exc = None
         self.callstack = CallStack(self, maxdepth)
         self.is_executing = False
         self.is_formula_error_used = True
@@ -89,6 +90,7 @@ class NonThreadedExecutor:
         self.excinfo = None
         self.errorstack = None
         self.is_executing = True
+        self.rolledback.clear()
 
         try:
             self.buffer = self._eval_formula(node)
@@ -96,6 +98,7 @@ class NonThreadedExecutor:
             self.excinfo = sys.exc_info()
         finally:
             self.is_executing = False
+            self.rolledback_exc = None
 
         assert not self.callstack
         assert not self.callstack.counter
@@ -172,6 +175,7 @@ class ThreadedExecutor(NonThreadedExecutor):
         self.initnode = node
         self.excinfo = None
         self.errorstack = None
+        self.rolledback.clear()
         try:
             self.is_executing = True
             self.thread.signal_start.set()
@@ -210,6 +214,7 @@ class ThreadedExecutor(NonThreadedExecutor):
 
         finally:
             self.initnode = None
+            self.rolledback_exc = None
 
 
 class CallStack(deque):
@@ -300,6 +305,12 @@ class CallStack(deque):
     def rollback(self):
         node = deque.pop(self)
         self.idxstack.pop()
+        exc = sys.exc_info()[1]
+        if exc is not self.executor.rolledback_exc:
+            # Nodes rolled back by another exception belong to a failure
+            # that a formula caught; they are not part of this traceback
+            self.executor.rolledback.clear()
+            self.executor.rolledback_exc = exc
         self.executor.rolledback.append(node)
         self.counter -= 1
         cells = node[OBJ]
